@@ -23,6 +23,8 @@ def make_wt(patch=None):
     shutil.copy(os.path.join(REPO, "src/stationeers_pytrapic/_version.py"), os.path.join(d, "src/stationeers_pytrapic/_version.py"))
     if patch:
         r = sh(["git", "-C", d, "apply", os.path.abspath(patch)])
+        if r.returncode != 0:  # the tree moved on (fix commits) since the patch was written: three-way merge on the recorded blobs
+            r = sh(["git", "-C", d, "apply", "--3way", os.path.abspath(patch)])
         assert r.returncode == 0, "patch does not apply: " + r.stdout
     return d
 
